@@ -20,7 +20,8 @@ FALLBACK = (
     "def seededModels : List (String × Bool) := []\n"
     "def globalSeedCalls : List String := [\"extractor-failed\"]\n"
     "def modesPassSeed : List (String × Bool) := []\n"
-    "def seedContextShape : List String := []"
+    "def seedContextShape : List String := []\n"
+    "def unseededGenerators : List String := [\"extractor-failed\"]"
 )
 
 NON_DRAW = {"seed", "get_state", "set_state", "default_rng", "RandomState", "Generator", "SeedSequence", "PCG64", "MT19937", "BitGenerator"}
@@ -290,6 +291,23 @@ def seed_context_shape():
     return shape
 
 
+def unseeded_generators(pkg: Pkg):
+    """calls under pyxel/models that create a private generator without handing it a seed expression
+    (`np.random.default_rng()`, `RandomState()`, `Generator(...)` built from an unseeded bit generator):
+    such draws ignore both the pipeline seed and the model's own seed."""
+    rows = []
+    for rel, mod in pkg.files.items():
+        for n in ast.walk(mod):
+            if isinstance(n, ast.Call):
+                ch = _attr_chain(n.func)
+                if ch[-1:] and ch[-1] in ("default_rng", "RandomState", "SeedSequence", "PCG64", "MT19937", "Philox", "SFC64"):
+                    args = list(n.args) + [k.value for k in n.keywords]
+                    seeded = any(not (isinstance(a, ast.Constant) and a.value is None) for a in args)
+                    if not seeded:
+                        rows.append(f"{rel}:{n.lineno}")
+    return sorted(rows)
+
+
 def gen() -> str:
     pkg = Pkg()
     sm = seeded_models(pkg)
@@ -298,5 +316,6 @@ def gen() -> str:
         f"def seededModels : List (String × Bool) := {llist(sm, pb)}\n"
         f"def globalSeedCalls : List String := {llist(global_seed_calls())}\n"
         f"def modesPassSeed : List (String × Bool) := {llist(modes_pass_seed(), pb)}\n"
-        f"def seedContextShape : List String := {llist(seed_context_shape())}"
+        f"def seedContextShape : List String := {llist(seed_context_shape())}\n"
+        f"def unseededGenerators : List String := {llist(unseeded_generators(pkg))}"
     )
